@@ -1129,6 +1129,7 @@ func (e *fnEnc) closeLoop(li *loopInfo, from *ssa.BasicBlock, st *state) {
 	if len(spec.IterEnsures) > 0 {
 		ienv := e.contractEnv(est, e.entry, nil) // no loop: names are the iteration's own values
 		ienv.iterFrom = from
+		ienv.iterLoop = li
 		for i, ie := range spec.IterEnsures {
 			t := ienv.evalBool(ie.Expr)
 			o := e.oblige(est, "iteration-ensures", fmt.Sprintf("loop%d[%s]", li.ordinal, labelOr(ie.Label, i)), token.NoPos, t)
